@@ -108,6 +108,11 @@ def run_config(ctx, config, counts):
         ctx.fail("linkage", "%s/%s" % (config, d.key), "declared quantity has no generated type", "%s:%d" % (d.file, d.line_start))
     for q in w.un_q:
         ctx.fail("linkage", "%s/%s" % (config, q.path), "generated quantity type without declaration", q.span)
+    per_type(ctx, config, w, counts)
+
+
+def per_type(ctx, config, w, counts):
+    U = w.U
     for q in w.qtypes:
         if q.kind == "dimless":
             iter_form(ctx, config, U, q)
@@ -175,6 +180,14 @@ def run(ctx):
     counts = {"types": set(), "units": set()}
     for config in ("f64-all", "dec-all"):
         run_config(ctx, config, counts)
+    # synthetic definitions: the witness corpus of C11 (attribute permutations, ties, names
+    # whose order differs from the order of the generated identifiers), type-checked only
+    from . import rules_c11
+    for label, feats in (("f64", []), ("dec", ["fpdec"])):
+        cw, crate, bases = rules_c11.load_corpus(ctx, label, feats, ctx.seed)
+        ctx.configs.append(cw.config)
+        per_type(ctx, cw.config, cw, counts)
+    ctx.floor("corpus quantity types", len([t for t in counts["types"] if t[0].startswith("corpus")]), 2 * 30)
     ctx.floor("f64-all quantity types with declaration", len([t for t in counts["types"] if t[0] == "f64-all"]), 27)
     ctx.floor("dec-all quantity types with declaration", len([t for t in counts["types"] if t[0] == "dec-all"]), 24)
     ctx.floor("f64-all units", len([t for t in counts["units"] if t[0] == "f64-all"]), 112 + 27 + 30)
